@@ -4,6 +4,7 @@ from collections import defaultdict
 import numpy as np
 from scipy.sparse.linalg import lsmr
 from scipy.special import logsumexp
+from mbi import _verif_trace as _vt
 
 """ This file is experimental.  
 It is an attempt to re-implement and generalize the technique used in PMW^{Pub}.
@@ -32,6 +33,10 @@ def entropic_mirror_descent(loss_and_grad, x0, total, iters=250):
         #Q = P * np.exp(-alpha*dL)
         #Q *= total / Q.sum()
         new_loss, new_dL = loss_and_grad(Q)
+        if _vt.ON and _vt.sink is not None:
+            _vt.emit('pmd.step', k=_, alpha=float(alpha), loss=float(loss), new_loss=float(new_loss),
+                     rhs=float(0.5*alpha*dL.dot(P-Q)), rhs_current=float(0.5*alpha*dL.dot(np.exp(logP)-Q)),
+                     begun=bool(begun), logP_id=id(logP), logQ_id=id(logQ))
 
         if loss - new_loss >= 0.5*alpha*dL.dot(P-Q):
             #print(alpha, loss)
@@ -43,6 +48,8 @@ def entropic_mirror_descent(loss_and_grad, x0, total, iters=250):
             alpha *= 0.5
             begun = True
 
+    if _vt.ON and _vt.sink is not None:
+        _vt.emit('pmd.return', loss=float(loss), logP_id=id(logP))
     return np.exp(logP)
 
 def estimate_total(measurements):
